@@ -122,7 +122,7 @@ def _lock_rules(chk, prog, S):
     chk.rule(rule2, "no may-panic call while the channel mutex is held")
     LA = LockAnalysis(chk, prog, S)
     tu = LA.tu
-    funcs = [f for f in LA.lock_funcs() if f.name != "chan_unlock_args"]
+    funcs = [f for f in LA.lock_funcs() if f.name not in ("chan_unlock_args", "chan_lock_args")]
     LA.lockfn_names = set(f.name for f in funcs)
     if len(funcs) < 10:
         raise AnalysisBroken("only %d lock-using functions found in ev.c" % len(funcs))
@@ -295,26 +295,34 @@ def _choice_rule(chk, prog, S, LA, results=None):
     chk.analysed(fn)
     chk.exception(rule, "cfun_channel_choice", "multi-lock function: analysed with the dedicated (current, earlier-clauses) rule")
 
+    def all_form(n):
+        """chan_unlock_args(argv, argc): every clause"""
+        return len(n.args) == 2 and is_ref(strip_casts(n.args[0]), "argv") and is_ref(strip_casts(n.args[1]), "argc")
+
     def transfer(st, n):
-        """state (cur, prevheld): cur = the current clause's mutex is held; prevheld = mutexes of earlier clauses
-        are (possibly) still held - they join that set when a new clause is locked while cur is still held"""
+        """state (cur, others, taken): cur = the current clause's mutex is held; others = mutexes of other clauses are
+        (possibly) still held; taken = some mutex was taken at all.  others is a pair (before, after) of the clauses
+        before and after the current one, released by chan_unlock_args(argv, i) and by the `rest` form respectively."""
         if n.k != "call":
             return st
         out = set()
-        for (cur, prevheld, taken) in st:
+        for (cur, others, taken) in st:
+            before, after = others
             if n.callee == LOCK:
-                out.add((1, prevheld or cur > 0, True))
+                out.add((1, (before or cur > 0, after), True))
+            elif n.callee == "chan_lock_args":
+                out.add((1, (True, True), True))
             elif n.callee == UNLOCK:
-                out.add((max(cur - 1, -1), prevheld, taken))
+                out.add((max(cur - 1, -1), others, taken))
             elif n.callee and n.callee.endswith("_with_lock"):
-                if cur > 0:
-                    out.add((cur - 1, prevheld, taken))
-                else:
-                    out.add((cur, prevheld, taken))
+                out.add((cur - 1 if cur > 0 else cur, others, taken))
             elif n.callee == "chan_unlock_args":
-                out.add((cur, False, taken))
+                if all_form(n):
+                    out.add((0, (False, False), taken))
+                else:
+                    out.add((cur, (False, after), taken))
             else:
-                out.add((cur, prevheld, taken))
+                out.add((cur, others, taken))
         return frozenset(out)
 
     # drain loops: `for` statements whose body releases through *_with_lock and never locks
@@ -323,7 +331,9 @@ def _choice_rule(chk, prog, S, LA, results=None):
         if f.k == "for":
             body = f.kids[3]
             calls = [c for c in body.walk() if c.k == "call"]
-            if any((c.callee or "").endswith("_with_lock") for c in calls) and not any(c.callee == LOCK for c in calls):
+            # (the first pass also calls the helpers, but it returns from inside the loop; the registration pass never does)
+            if any((c.callee or "").endswith("_with_lock") for c in calls) and not any(c.callee == LOCK for c in calls) \
+                    and not any(x.k == "return" for x in body.walk()):
                 drain.append(f)
     drain_nodes = set()
     for f in drain:
@@ -356,10 +366,11 @@ def _choice_rule(chk, prog, S, LA, results=None):
                 b[0].get("argc") == 1 and b[0].get(ivars[0]) == -1 and b[1] == -1)
 
     def transfer(st, n):   # noqa
+        if n.k == "call" and n.callee == "chan_unlock_args" and rest_form(n):
+            # chan_unlock_args(argv + i + 1, argc - i - 1): the clauses after the current one
+            return frozenset((cur, (others[0], False), taken) for (cur, others, taken) in st)
         if n.id in drain_nodes and n.k == "call" and n.callee == "chan_unlock_args":
             # inside the registration loop only the "release the rest" form lets go of the clauses still locked
-            if rest_form(n):
-                return frozenset((cur, False, taken) for (cur, prevheld, taken) in st)
             return st
         return base_transfer(st, n)
 
@@ -367,19 +378,20 @@ def _choice_rule(chk, prog, S, LA, results=None):
         if blk.term is not None and blk.term in drain:
             if truth is False:
                 # every clause has been released by its own iteration
-                return frozenset((0, False, t) for (c, p, t) in st)
+                return frozenset((0, (False, False), t) for (c, p, t) in st)
             if truth is True:
-                # iteration i starts with clause i (and all later ones) still locked from the first pass
-                return frozenset((1, True, t) for (c, p, t) in st)
+                # iteration i starts with clause i and all later ones still locked from the first pass; the earlier
+                # ones were released one per iteration (checked above)
+                return frozenset((1, (False, True), t) for (c, p, t) in st)
         return st
 
-    IN, OUT = flow.forward(fn, frozenset([(0, False, False)]), transfer, lambda a, b: a | b, edge=edge)
+    IN, OUT = flow.forward(fn, frozenset([(0, (False, False), False)]), transfer, lambda a, b: a | b, edge=edge)
     nexits = 0
     for b, st in IN.items():
         blk = fn.blocks[b]
         for n in blk.elems:
             if n.k == "call" and n.callee not in (LOCK, UNLOCK, "chan_unlock_args"):
-                held = [s for s in st if s[0] > 0 or s[1]]
+                held = [s for s in st if s[0] > 0 or s[1][0] or s[1][1]]
                 if prog.is_noreturn(n.callee or "") and n.callee != "janet_await":
                     chk.instance(rule)
                     if held:
@@ -391,7 +403,7 @@ def _choice_rule(chk, prog, S, LA, results=None):
                     # the helper gives up the current clause's mutex before it raises (C08-LOCK), but ev/select also holds
                     # the mutexes of the other clauses: a helper that raises by itself leaves those locked for ever
                     raises = results[n.callee]["nr"]
-                    others = [s for s in st if s[1]]
+                    others = [s for s in st if s[1][0] or s[1][1]]
                     chk.instance(rule2)
                     if raises and others:
                         chk.violation(rule2, "ev.c", fn.name, "raising-helper:" + n.callee, n.loc,
@@ -407,13 +419,15 @@ def _choice_rule(chk, prog, S, LA, results=None):
             if n.k == "return" or (n.k == "call" and n.callee == "janet_await"):
                 nexits += 1
                 chk.instance(rule)
-                bad = [s for s in st if s[0] != 0 or s[1]]
+                bad = [s for s in st if s[0] != 0 or s[1][0] or s[1][1]]
                 if bad:
                     what = []
                     if any(s[0] != 0 for s in bad):
                         what.append("the current clause's mutex is still held")
-                    if any(s[1] for s in bad):
+                    if any(s[1][0] for s in bad):
                         what.append("the mutexes of earlier clauses still held (chan_unlock_args(argv, i) not called)")
+                    if any(s[1][1] for s in bad):
+                        what.append("the mutexes of later clauses still held (chan_unlock_args(argv + i + 1, argc - i - 1) not called)")
                     chk.violation(rule, "ev.c", fn.name, "exit:%s" % (n.callee or "return"), n.loc,
                                   "ev/select leaves with " + " and ".join(what))
                 else:
@@ -469,7 +483,7 @@ def _guarded_rule(chk, prog, S, LA, results):
             states = {}
 
             def tr(st, n):
-                if n.k == "call" and n.callee == LOCK:
+                if n.k == "call" and n.callee in (LOCK, "chan_lock_args"):
                     return frozenset([1])
                 if n.k == "call" and (n.callee == UNLOCK or (n.callee or "").endswith("_with_lock")):
                     return frozenset([0])
@@ -950,7 +964,8 @@ def _recursive_rule(chk, prog):
     # the premise: the select primitive really can hold one lock while taking another
     chk.instance(rule)
     ch = full.tus["ev.c"].funcs.get("cfun_channel_choice")
-    if ch is None or not ch.calls("janet_chan_lock"):
+    locker = full.tus["ev.c"].funcs.get("chan_lock_args")
+    if ch is None or not (ch.calls("janet_chan_lock") or (ch.calls("chan_lock_args") and locker is not None and locker.calls("janet_chan_lock"))):
         raise AnalysisBroken("cfun_channel_choice / janet_chan_lock not found")
     chk.ok(rule, "premise: cfun_channel_choice takes channel locks in a loop over its clauses")
 
@@ -975,6 +990,7 @@ def run(chk):   # noqa
     _withdraw_rule(chk, prog)
     _awaitreg_rule(chk, prog)
     _packflags_rule(chk, prog)
+    _lockorder_rule(chk, prog)
 
 
 def _sweepreset_rule(chk, prog):
@@ -1202,3 +1218,36 @@ def _packflags_rule(chk, prog):
         else:
             chk.ok(rule, "pack and unpack both use %s" % names)
     chk.floor(rule, 1, len(w))
+
+
+def _lockorder_rule(chk, prog):
+    """Whoever holds one channel mutex while taking another needs a global order on them: two threads that
+    (ev/select a b) and (ev/select b a) otherwise end up holding one each and waiting for the other.  The clauses'
+    own order is not such an order - it is the program's.  The one place that takes several channel mutexes has to
+    sort them (by address) first."""
+    rule = "C08-LOCKORDER"
+    chk.rule(rule, "a loop that takes the mutexes of several channels takes them in sorted (address) order, not in the order the program named them")
+    tu = prog.tus["ev.c"]
+    n = 0
+    for fn in tu.funcs.values():
+        loops = [lp for lp in fn.nodes if lp.k in ("for", "while", "do") and any(c.k == "call" and c.callee == LOCK for c in lp.walk())]
+        if not loops:
+            continue
+        order = {id(x): i for i, x in enumerate(fn.nodes)}
+        for lp in loops:
+            n += 1
+            chk.instance(rule)
+            chk.analysed(fn)
+            sorts = [c for c in fn.calls("qsort") if order[id(c)] < order[id(lp)]]
+            # what is locked must be what was sorted
+            locked = [c for c in lp.walk() if c.k == "call" and c.callee == LOCK][0]
+            arr = set(y.name for y in locked.args[0].walk() if y.k == "ref")
+            ok = any(arr & set(y.name for y in c.args[0].walk() if y.k == "ref") for c in sorts)
+            if ok:
+                chk.ok(rule, "%s: the channels are sorted before their mutexes are taken" % fn.name)
+            else:
+                chk.violation(rule, "ev.c", fn.name, "clause-order", lp.loc,
+                              "%s takes channel mutexes one after the other in the order the program listed the channels: two "
+                              "threads that select over the same two thread channels in opposite clause order each get one mutex "
+                              "and wait for the other for ever" % fn.name)
+    chk.floor(rule, 1, n)
